@@ -19,6 +19,7 @@ import (
 	"time"
 
 	"github.com/ipfs/go-datastore"
+	contextds "github.com/ipfs/go-datastore/context"
 	"github.com/ipfs/go-datastore/query"
 
 	header "github.com/celestiaorg/go-header"
@@ -59,6 +60,7 @@ type Config struct {
 	Ranges               int // random GetRange probes per probe
 	Crash                int // number of write-log prefixes to reopen (0 = none, <0 = all)
 	FailHdrFrom, FailHdrN int // transient failures of flush commits (FailHdrN = 0: none)
+	CtxDS                 bool // context-aware datastore flavour: write batches and read transactions via the context
 }
 
 // Gen decides the next op given the current head/tail heights (0,0 = empty) and the step index.
@@ -251,6 +253,9 @@ func Run(t *testing.T, rng *emit.Rand, cfg Config, maxOps int, gen Gen) Result {
 			r.rec.FailHdrFrom, r.rec.FailHdrN = cfg.FailHdrFrom, cfg.FailHdrN
 		}
 		r.ds = r.rec
+		if cfg.CtxDS {
+			r.ds = contextds.WrapDatastore(r.rec).(datastore.Batching)
+		}
 		// every failed height lookup of the datastore takes a little virtual time: the flush goroutine
 		// (advanceHead/recedeTail end in one) is then still busy when a caller continues right after
 		// Append/Sync returned, which makes "Sync returned, so everything is readable" a sharp test
@@ -385,6 +390,10 @@ func Run(t *testing.T, rng *emit.Rand, cfg Config, maxOps int, gen Gen) Result {
 			probe := "None"
 			if op.Kind == Append && !rush && cfg.FailHdrN == 0 && r.rng.Chance(45) {
 				// Sync, then probe at once (no quiescence): what was appended before Sync returned must be readable
+				steps = append(steps, fmt.Sprintf("SStep (%s) %s %s None", opTerm, outc, emit.List(r.log)))
+				loglens = append(loglens, emit.Nat(len(r.rec.Log)))
+				descr = append(descr, opTerm+" => "+outc)
+				opTerm, outc, r.log = "ISync", "OOk", nil
 				if err := r.s.Sync(ctx); err != nil {
 					outc = "OFail"
 				}
@@ -419,7 +428,7 @@ func Run(t *testing.T, rng *emit.Rand, cfg Config, maxOps int, gen Gen) Result {
 			t.Fatal("final stop 2:", err)
 		}
 		out.Term = fmt.Sprintf("SCase %d %s %s %s", cfg.Batch, emit.List(chainTerms), emit.List(steps), dump)
-		out.Descr = map[string]any{"batch": cfg.Batch, "cache": cfg.Cache, "icache": cfg.ICache, "handlers": cfg.NH, "ops": descr}
+		out.Descr = map[string]any{"ctxds": cfg.CtxDS, "batch": cfg.Batch, "cache": cfg.Cache, "icache": cfg.ICache, "handlers": cfg.NH, "ops": descr}
 		out.NonTriv = out.Ops >= 3
 		if cfg.Crash != 0 {
 			out.LogLen = len(r.rec.Log)
